@@ -225,7 +225,10 @@ def o_c02(tr):
                 completed[dn] = completed.get(dn, 0) + a
         for dn in set(list(d.supply) + list(prev.supply) + list(completed)):
             delta = d.supply.get(dn, 0) - prev.supply.get(dn, 0)
-            if delta != completed.get(dn, 0):
+            # the printed supply excludes the gov module account (environment): coins a scenario account moves
+            # into it (bank.send / stream payout to Mgov) show up as a decrease of the printed figure
+            to_gov = any("Mgov" in t["line"] for t in b["txs"])
+            if delta != completed.get(dn, 0) and not (to_gov and delta < completed.get(dn, 0)):
                 yield {"oracle": "supply-delta", "signature": "delta!=completed", "detail": "block t=%d denom %s: supply delta %d, completed orders %d" % (b["time"], dn, delta, completed.get(dn, 0))}
 
 
@@ -251,6 +254,27 @@ def o_c03(tr):
                     yield {"oracle": "terminal-frozen", "signature": "changed", "detail": "order %d" % i}
             elif prev is not None and po["status"] != 1:
                 yield {"oracle": "status-transition", "signature": "new-not-raised", "detail": "order %d first seen with status %d" % (i, po["status"])}
+        # the tally rule of the statement, evaluated independently: parameters and decisions as committed by the
+        # previous block (the tally runs in BeginBlock, before any transaction of this block)
+        if prev is not None and prev.ent_params:
+            sg = prev.ent_params["signers"].split(",") if prev.ent_params["signers"] != "-" else []
+            mn, lim = prev.ent_params["min"], prev.ent_params["limit"]
+            for i, po in prev.po.items():
+                if po["status"] != 1 or i not in d.po:
+                    continue
+                acc = len([1 for x in po["decisions"] if x[1] == "2"]); rej = len([1 for x in po["decisions"] if x[1] == "3"])
+                age = b["time"] // 10**9 - po["raise"]
+                if age >= lim and acc < mn:
+                    want = 3
+                elif rej > len(sg) - mn:
+                    want = 3
+                elif acc >= mn:
+                    want = 2
+                else:
+                    want = 1
+                if d.po[i]["status"] != want:
+                    yield {"oracle": "tally-rule", "signature": "want-%d-got-%d" % (want, d.po[i]["status"]),
+                           "detail": "order %d: accepts %d rejects %d signers %d min %d age %d limit %d" % (i, acc, rej, len(sg), mn, age, lim)}
         if sorted(i for i, p in d.po.items() if p["status"] == 1) != sorted(d.rq):
             yield {"oracle": "queues-match-status", "signature": "raised", "detail": str(d.rq)}
         if sorted(i for i, p in d.po.items() if p["status"] == 2) != sorted(d.aq):
